@@ -20,6 +20,12 @@ muts=[
  ("M12 iterShape starts at 1", IT, "    return self.iterRangeShape(0, self.getShape(all_ranks=False), tick=tick)", "    return self.iterRangeShape(1, self.getShape(all_ranks=False), tick=tick)", True),
  ("M13 project interval lower bound: c >= lo -> c > lo", FB, "or (c >= self.interv[0] and c < self.interv[1]):", "or (c > self.interv[0] and c < self.interv[1]):", True),
  ("M14 coiterActiveShapeRef uses the shape instead of the active range", IT, "    return type(fibers[0]).coiterRangeShapeRef(fibers, *fibers[0].getActive())", "    return type(fibers[0]).coiterRangeShapeRef(fibers, 0, fibers[0].getShape(all_ranks=False))", True),
+ ("W1 Rank.append keeps the smallest instead of the largest estimated extent", 'fibertree/core/rank.py', "self._attrs.setShape(max(old, new))", "self._attrs.setShape(min(old, new))", True),
+ ("W2 getPayload hands out one cached default object for absent coordinates", FB, "            payload = self._createDefault(addtorank=False)", "            if not hasattr(self, '_dcache'):\n                self._dcache = self._createDefault(addtorank=False)\n            payload = self._dcache", True),
+ ("W3 project: active range of the result one short", FB, "max_ = Fiber._transCoord(max(start, end), lambda c: c + 1)", "max_ = Fiber._transCoord(max(start, end), lambda c: c)", True),
+ ("W4 iterRange no longer unboxes a Payload start_pos", IT, "        start_pos = Payload.get(start_pos)\n        if start_pos is not None:\n            assert start_pos < len(self.coords)", "        if start_pos is not None:\n            assert start_pos < len(self.coords)", True),
+ ("W5 project of a lazy fiber skips its first element", FB, "                fiter = self.fbr.__iter__(tick=self.tck, start_pos=self.start)", "                fiter = self.fbr.__iter__(tick=self.tck, start_pos=self.start)\n                if self.fbr.isLazy():\n                    next(fiter, None)", True),
+ ("W6 Payload.isEmpty treats any falsy value as empty", 'fibertree/core/payload.py', "        if p == default:\n            return True\n\n        return False", "        if p == default or not Payload.get(p):\n            return True\n\n        return False", True),
  ("H1 iterRange: generator over indices rewritten as zip of slices", IT, "        iter_ = ((self.coords[j], self.payloads[j])\n                  for j in range(i, len(self.coords)))", "        iter_ = zip(self.coords[i:], self.payloads[i:])", False),
  ("H2 project: reversed(cps) rewritten as iter(cps[::-1])", FB, "                    return reversed(self.cps)", "                    return iter(self.cps[::-1])", False),
  ("H3 iterRange: saved-position distance statistic changed", IT, "self.setSavedPos(i + j, distance=j)", "self.setSavedPos(i + j, distance=0)", False),
